@@ -16,7 +16,6 @@
 
 double sc_time_stamp() { return 0; }
 
-constexpr size_t RESET_BEGIN = 1;
 constexpr size_t RESET_END = 10;
 
 hex::HexSimIO io(std::cin, std::cout);
@@ -96,8 +95,9 @@ int run(const std::unique_ptr<VerilatedContext> &contextp,
   uint64_t cycle_count = 0;
   int exitCode = 0;
 
-  // Set input signals
-  top->i_rst = 0;
+  // Set input signals. Reset is asserted from the very first evaluation, so
+  // that nothing is executed from the (random) power-on state.
+  top->i_rst = 1;
   top->i_clk = 0;
 
   while (!contextp->gotFinish() &&
@@ -107,7 +107,7 @@ int run(const std::unique_ptr<VerilatedContext> &contextp,
     top->i_clk = !top->i_clk;
     // Assert reset initially.
     if (top->i_clk) {
-      if (contextp->time() > RESET_BEGIN && contextp->time() < RESET_END) {
+      if (contextp->time() < RESET_END) {
         top->i_rst = 1; // Assert reset
       } else {
         top->i_rst = 0; // Deassert reset
@@ -127,8 +127,8 @@ int run(const std::unique_ptr<VerilatedContext> &contextp,
                      % static_cast<unsigned>(top->hex->u_processor->instr)
                      % instr;
     }
-    // Handle syscalls
-    if (top->i_clk && top->o_syscall_valid) {
+    // Handle syscalls (there are none to service while reset is asserted).
+    if (top->i_clk && !top->i_rst && top->o_syscall_valid) {
       auto syscall = static_cast<hex::Syscall>(top->o_syscall);
       handleSyscall(syscall, top, exitCode, trace);
       if (syscall == hex::Syscall::EXIT) {
